@@ -455,7 +455,7 @@ func (o *trafficOracle) checkVoid(s *Sim, w *Write) {
 			}
 		}
 	}
-	if ss != nil && ss.Spec.Selector[revKey] != "" && cur.Share < 100 {
+	if ss != nil && ss.Spec.Selector[revKey] != "" && cur.Share < 100 && s.Cfg.PodKill == 0 {
 		s.probe("c04.pinned-snapshots")
 		r := ss.Spec.Selector[revKey]
 		total, have := 0, 0
